@@ -547,8 +547,10 @@ trivial = no record; distinct = distinct sequences of (body kind, size class, pr
             }
         }
         obs.case(mix(58, i));
+        // (every header is asked four times in a row, twice over: what a library remembers from the
+        // call before is asked for again at once, while other threads are on other days)
         for round in 0..8 {
-            for (h, date, time) in &hs {
+            for (h, date, time) in hs.iter().flat_map(|x| std::iter::repeat(x).take(if round < 2 { 4 } else { 1 })) {
                 let want = cal::icd_epoch_ms(*date as u16, *time as u64);
                 match mon::catch(|| h.date_time().map(|t| t.timestamp_millis())) {
                     Ok(Some(t)) if t == want => {}
@@ -563,7 +565,7 @@ trivial = no record; distinct = distinct sequences of (body kind, size class, pr
                 }
             }
         }
-        obs.count("header_instants_exact_in_tight_loops", 256);
+        obs.count("header_instants_exact_in_tight_loops", 448);
     });
     let headers: u64 = ctx.tier.pick(60_000, 2_000_000);
     par_cases(ctx, headers, |i, obs| {
